@@ -781,6 +781,70 @@ fn unspecified_strategy() -> impl Strategy<Value = Decode> {
     })
 }
 
+// ---------------------------------------------------------------- at a terminal
+
+/// The same commands with a pseudo-terminal as standard output or standard input (a user at a shell prompt):
+/// the bytes written and the bytes taken from the input are the same as through a pipe.
+#[derive(Clone, Debug, Serialize, Deserialize)]
+pub struct TtyCase {
+    /// encode | decode
+    pub op: String,
+    pub data_hex: String,
+    pub stdout_tty: bool,
+    /// the input is typed at a terminal (text lines only)
+    pub stdin_tty: bool,
+}
+
+fn judge_tty(c: &TtyCase, cls: &mut Classifier) -> Verdict {
+    let Some(data) = unhex(&c.data_hex) else { return fail("hex", c.data_hex.clone(), "bad replay case") };
+    let (input, want): (Vec<u8>, Vec<u8>) = if c.op == "encode" { (data.clone(), format!("0x{}\n", hex_lower(&data)).into_bytes()) } else { (format!("0x{}\n", hex_lower(&data)).into_bytes(), data.clone()) };
+    let args = ["hex", c.op.as_str(), "-"];
+    let Some(out) = cli::run_tty(cli_path(), &args, &input, c.stdin_tty, c.stdout_tty) else {
+        cls.label("tty-not-available-or-timeout");
+        return Ok(());
+    };
+    let how = format!("`hdwallet hex {} -` with standard {} a terminal on {} input bytes", c.op, match (c.stdin_tty, c.stdout_tty) { (true, true) => "input and output", (true, false) => "input", _ => "output" }, input.len());
+    if out.panicked() {
+        return fail("a result", observed(&out), how);
+    }
+    if !out.ok() || out.stdout != want {
+        return fail(format!("exit 0, stdout[{} bytes]={:?}", want.len(), preview(&want)), observed(&out), format!("{how}: the same bytes as through a pipe"));
+    }
+    cls.label("terminal");
+    cls.label(if c.stdin_tty { "terminal-stdin" } else { "terminal-stdout" });
+    cls.nontrivial(&("tty", c.op.as_str(), c.data_hex.as_str(), c.stdin_tty, c.stdout_tty));
+    Ok(())
+}
+
+fn tty_cases(seed: u64, n: usize) -> Vec<TtyCase> {
+    let mut p = Prng::new(seed);
+    let mut v = vec![];
+    for i in 0..n {
+        let text: Vec<u8> = {
+            // typed text: printable ASCII lines, mostly ending in a line feed
+            let lines = 1 + p.below(3) as usize;
+            let mut t = vec![];
+            for _ in 0..lines {
+                let len = p.below(40) as usize;
+                t.extend((0..len).map(|_| 0x20 + p.below(0x5f) as u8));
+                t.push(b'\n');
+            }
+            if i % 5 == 4 {
+                t.pop();
+            }
+            t
+        };
+        let binary = p.bytes([0usize, 1, 2, 33, 255, 4096][i % 6]);
+        match i % 4 {
+            0 => v.push(TtyCase { op: "encode".into(), data_hex: hex_lower(&binary), stdout_tty: true, stdin_tty: false }),
+            1 => v.push(TtyCase { op: "decode".into(), data_hex: hex_lower(&binary), stdout_tty: true, stdin_tty: false }),
+            2 => v.push(TtyCase { op: "encode".into(), data_hex: hex_lower(&text), stdout_tty: false, stdin_tty: true }),
+            _ => v.push(TtyCase { op: "decode".into(), data_hex: hex_lower(&text), stdout_tty: true, stdin_tty: false }),
+        }
+    }
+    v
+}
+
 // ---------------------------------------------------------------- white space is ignored ANYWHERE
 
 /// One character (decided or other white space, or a character that is no white space at all) inserted into the
@@ -953,7 +1017,7 @@ fn setup(ctx: &Ctx) {
 
 pub fn run(ctx: &mut Ctx) {
     setup(ctx);
-    ctx.rule = "CLI subprocess runs of the overflow-checked build, input by stdin (default and explicit `-`), by file (with decoy stdin), and - in a fixed table of lengths 0..70000 and malformed texts - by paths that are not regular files (/dev/stdin, a FIFO). (a) byte strings of length 0..=4096 (uniform bytes; all-0, all-ff, every byte value in turn, text, white-space bytes, hex-looking text, UTF-8, trailing line ends, bytes >= 0x80, control bytes; every single byte value and every length of a range as sweeps): `hex encode` must print exactly 0x + lower-case digits + newline and `hex decode` of that very output must return the bytes. (b) the digits of such strings re-spelled: 0x present/absent, digit case lower/upper/random/alternating, 11 white-space layouts over the six ASCII white-space characters {space, tab, LF, VT, FF, CR} (ends, between bytes, between the two digits of a byte, wrapped lines, after the prefix, dense runs): must decode to the same bytes. (c) malformed inputs made from a well-formed spelling by one defect (digit dropped/added, non-hex character inserted/replacing a digit/at either end, second or misplaced prefix, bytes that are not UTF-8), every byte value at six positions, all 484 two-digit spellings, hand-written tables: error exit and empty stdout. Oracle: a reference decoder written from the property text (own nibble table; decides the six ASCII white-space characters - also between the 0 and the x of the prefix - and the lower-case 0x). Undecided inputs (other white space, 0X) are only required not to panic. (d) position independence: one character (ASCII or other white space, zero-width characters, an emoji) inserted into the same 8192..66000-digit string once so that its bytes straddle or touch a multiple of 4096 and once near an end: both inputs must have the same outcome (and a decided white-space character must be ignored). Non-trivial: data non-empty and not ASCII text (round trip: distinct by data; layouts: spelling differs from the canonical one, distinct by input text), malformed inputs with at least two hex digits (distinct by input).".into();
+    ctx.rule = "CLI subprocess runs of the overflow-checked build, input by stdin (default and explicit `-`), by file (with decoy stdin), and - in a fixed table of lengths 0..70000 and malformed texts - by paths that are not regular files (/dev/stdin, a FIFO). (a) byte strings of length 0..=4096 (uniform bytes; all-0, all-ff, every byte value in turn, text, white-space bytes, hex-looking text, UTF-8, trailing line ends, bytes >= 0x80, control bytes; every single byte value and every length of a range as sweeps): `hex encode` must print exactly 0x + lower-case digits + newline and `hex decode` of that very output must return the bytes. (b) the digits of such strings re-spelled: 0x present/absent, digit case lower/upper/random/alternating, 11 white-space layouts over the six ASCII white-space characters {space, tab, LF, VT, FF, CR} (ends, between bytes, between the two digits of a byte, wrapped lines, after the prefix, dense runs): must decode to the same bytes. (c) malformed inputs made from a well-formed spelling by one defect (digit dropped/added, non-hex character inserted/replacing a digit/at either end, second or misplaced prefix, bytes that are not UTF-8), every byte value at six positions, all 484 two-digit spellings, hand-written tables: error exit and empty stdout. Oracle: a reference decoder written from the property text (own nibble table; decides the six ASCII white-space characters - also between the 0 and the x of the prefix - and the lower-case 0x). Undecided inputs (other white space, 0X) are only required not to panic. (e) at a terminal: encode/decode with a pseudo-terminal as standard output (binary and text data) and typed text on a pseudo-terminal as standard input must give the same bytes as through a pipe. (d) position independence: one character (ASCII or other white space, zero-width characters, an emoji) inserted into the same 8192..66000-digit string once so that its bytes straddle or touch a multiple of 4096 and once near an end: both inputs must have the same outcome (and a decided white-space character must be ignored). Non-trivial: data non-empty and not ASCII text (round trip: distinct by data; layouts: spelling differs from the canonical one, distinct by input text), malformed inputs with at least two hex digits (distinct by input).".into();
     ctx.assumptions = vec![
         "exit 255 or 2 without panic text is an ordinary error; nothing is required of stderr".into(),
         "white space other than the six ASCII characters space, tab, LF, VT, FF, CR (that is, non-ASCII Unicode white space, zero-width characters, 0x1c-0x1f) and an upper-case 0X prefix are not decided by the property (checked for absence of panic only)".into(),
@@ -1064,6 +1128,13 @@ pub fn run(ctx: &mut Ctx) {
     ctx.run_cases("char-sweep", &char_sweep(), judge_decode);
     ctx.exhaustive_parts.push("every byte value 0..=255 at six positions of a short input (alone, before/after a digit, inside/after a prefixed pair, between two pairs)".into());
 
+    // at a terminal
+    let tty = tty_cases(ctx.sub_seed("tty", 0), t.pick(48, 600));
+    ctx.run_cases("terminal", &tty, judge_tty);
+    if ctx.cls.count("tty-not-available-or-timeout") > 0 {
+        ctx.inconclusive(format!("{} terminal runs could not be made (no pseudo-terminal or time-out)", ctx.cls.count("tty-not-available-or-timeout")));
+    }
+
     // position independence of white space in long inputs
     let moves = ws_move_cases(t.pick(140, 4200), ctx.sub_seed("ws-move", 0));
     ctx.run_cases("ws-move", &moves, judge_ws_move);
@@ -1146,6 +1217,10 @@ fn replay_inner(sub: &str, case: &Value) -> (Option<Verdict>, bool) {
                 Err(e) => bad(e),
             }
         }
+        "terminal" => match serde_json::from_value::<TtyCase>(case.clone()) {
+            Ok(c) => judge_tty(&c, &mut cls),
+            Err(e) => bad(e),
+        },
         "ws-move" => match serde_json::from_value::<WsMove>(case.clone()) {
             Ok(c) => judge_ws_move(&c, &mut cls),
             Err(e) => bad(e),
